@@ -24,14 +24,14 @@ REPL_INLINE = ['', ' ', '  ', '\\\n ', ' # c\n', '\n', '\n  ', ' \\\n', '# é\n 
 # small sources enumerated completely in every tier (shapes the corpus sample may miss: decorators, implicit string
 # concatenation, non-ASCII lines, one-line compound statements, slices, patterns)
 EXTRA_SOURCES = [
-    "@deco(a, b)\n@ other\ndef f(x):\n    return x\n",
+    "@deco(a, b)\n@ other\ndef f(x):\n    return x\n@ d1\n@d2 (x)\nclass D: pass\n",
     "class C(A, B):\n    @ prop\n    def m(self, a=1, *b, c: int = 2, **d) -> None:\n        return [a, (b), {c: d}]  # \u00e9\n",
     "x = ('a' '\u00e9'\n     'c')\ny = [i for i in r if i]; z = lambda a, b=1: a\n",
     "with a as b, c as d: pass\nmatch v:\n    case [1, *r] | {'k': w}: pass\n",
     "\u00e9 = f(\u00e9, *a, k=v)[1:2, ::3]\nif \u00e9: \u00e9 += 1\nelse: del \u00e9\n",
     "def g(): \n  try: pass\n  except (A, B) as e: raise X from e\n  finally: return\n",
     # children whose syntax order is not field order (the offset walk's early `break`s rely on syntax order)
-    "r = f(k=1, *a, j=2, **kw)\nclass K(A, m=M, *B): pass\n"
+    "r = f(k=1, *a, j=2, **kw)\ns = g(k=1, *a)\nclass K(A, m=M, *B): pass\n"
     "def h(p=0, /, q=1, *, s=2, t=3): return {p: q, **s, t: 4}\n"
     "match v:\n    case {'k': w, 'j': u, **z}: pass\n",
 ]
